@@ -10,6 +10,7 @@ mod e_handler;
 mod e_hasher;
 mod e_incoming;
 mod e_net;
+mod e_node;
 mod e_prefix;
 mod e_server;
 mod e_srvsplit;
@@ -59,6 +60,7 @@ fn run_engine(engine: &str, seed: u64, n: usize, tier: &str) {
         "server" => e_server::run(seed, n, tier),
         "client" => e_client::run(seed, n, tier),
         "net" => e_net::run(seed, n, tier),
+        "node" => e_node::run(seed, n, tier),
         "stream" => e_stream::run(seed, n, tier),
         "srvsplit" => e_srvsplit::run(seed, n, tier),
         "handler" => e_handler::run_client(seed, n, tier),
